@@ -55,7 +55,9 @@ def r_replay(ck, pid, mode, K, P, limbsel="all5"):
     done = None
     wanted = R_FIELDS[pid]
     counted = 0
-    for line in p.stdout.splitlines():
+    for line in p.stdout.split("\n"):
+        if not line.strip():
+            continue
         o = json.loads(line)
         if o.get("done"):
             done = o
@@ -161,7 +163,9 @@ def do_replay(ck, pid, path):
         f = os.path.join(work, "case.json")
         open(f, "w").write(json.dumps(pl["case"]) + "\n")
         p = subprocess.run([HVNUM, "replay", "--in", f], stdout=subprocess.PIPE, text=True)
-        for line in p.stdout.splitlines():
+        for line in p.stdout.split("\n"):
+            if not line.strip():
+                continue
             o = json.loads(line)
             if "mismatch" in o:
                 ck.violation("R replay " + compact_case(o["case"]) + " :: " + "; ".join(o["mismatch"])[:200],
